@@ -327,6 +327,35 @@ func genSubnets(t *rapid.T) SubnetProg {
 
 func TestPropSubnets(t *testing.T) { prog.Check(t, "C18", "TestPropSubnets", genSubnets, runSubnets) }
 
+// Native coverage-guided variants of (b) and (c) for the thorough tier.
+func FuzzEnvelope(f *testing.F) {
+	f.Add([]byte("payload"), uint64(7), []byte{1, 2, 3})
+	f.Add([]byte{}, uint64(1<<63), make([]byte, 264))
+	f.Fuzz(func(t *testing.T, msg []byte, op uint64, raw []byte) {
+		sig := make([]byte, 256)
+		for i := range sig {
+			if len(raw) > 0 {
+				sig[i] = raw[i%len(raw)]
+			}
+		}
+		prog.CheckOne(t, "C18", "TestPropEnvelope", EnvProg{Msg: msg, Op: op, Sig: sig, Raw: raw}, runEnvelope)
+	})
+}
+
+func FuzzSubnets(f *testing.F) {
+	f.Add(make([]byte, 16))
+	f.Add([]byte{0xff, 0, 0xaa, 0x55, 1, 2, 4, 8, 16, 32, 64, 128, 0, 0, 0, 0xff})
+	f.Fuzz(func(t *testing.T, raw []byte) {
+		bits := make([]byte, 128)
+		for i := range bits {
+			if len(raw) > 0 {
+				bits[i] = (raw[(i/8)%len(raw)] >> (i % 8)) & 1
+			}
+		}
+		prog.CheckOne(t, "C18", "TestPropSubnets", SubnetProg{Bits: bits}, runSubnets)
+	})
+}
+
 func TestReplay(t *testing.T) {
 	prog.Replay(t, "C18", "TestPropTopicAgreement", runTopic)
 	prog.Replay(t, "C18", "TestPropEnvelope", runEnvelope)
